@@ -1,6 +1,7 @@
 import SlocModel.Driver.Proto
 import SlocModel.Driver.Threshold
 import SlocModel.Driver.Counter
+import SlocModel.Driver.Toml
 open SlocModel.Driver
 
 def dispatch (line : String) : String :=
@@ -15,7 +16,11 @@ def dispatch (line : String) : String :=
       | "find-start" => handleFindStart args
       | "has-end" => handleHasEnd args
       | "nesting" => handleNesting args
+      | "noop" => some "-"
       | "langs" => handleLangs args
+      | "extends" => handleExtends args
+      | "merge" => handleMerge args
+      | "finish" => handleFinish args
       | _ => some "bad-op"
     r.getD "bad-args"
   | [] => "bad-op"
